@@ -7,7 +7,7 @@ from iOpt.evolvent.evolvent import Evolvent
 LEVEL = "exploration"
 RULE = ("random interleaved sequences of GetImage / GetInverseImage / GetPreimages / SetBounds on one Evolvent object (N=1..5, m=2..12 and up to N*m=50; "
         "arguments as arrays, lists, tuples, integer-typed values, x as float / np.float64 / int 0 and 1); every result is compared bitwise with the same "
-        "single query put to a fresh object with the current bounds and density, every argument is compared with a copy taken before the call, and every "
+        "single query put to a fresh object with the current bounds and density, every argument is compared with a copy taken before the call (and again after later operations), boxes include those on which the affine map degenerates ([-1/2,1/2]^N, [0,1]^N, [-1,1]^N, per-axis mixtures), and every "
         "array returned earlier is re-compared with its copy after every later operation. Non-trivial: sequence with >= 20 operations including both "
         "directions; distinct = (N, m, sequence index).")
 ASSUMPTIONS = ["a fresh Evolvent object answering a single query is the reference for 'depends only on the argument, bounds and density'"]
@@ -41,8 +41,9 @@ def run_case(c):
     lo, hi, kind = scenario.gen_box(rng, N)
     ev = Evolvent(lo, hi, N, m)
     viol = []
-    obs = {"sequences": 1}
+    obs = {"sequences": 1, "box_" + kind: 1}
     kept = []          # (returned array reference, copy at return time, description)
+    kept_args = []     # (array the caller passed in, copy at call time, description): must never change later either
     last_inverse = None
     cnt = {"image": 0, "inverse": 0, "preimages": 0, "setbounds": 0}
 
@@ -120,6 +121,8 @@ def run_case(c):
                 if len(viol) < 5:
                     viol.append({"mech": "inverse-depends-on-history", "op": k, "y": [float(v) for v in y], "got": float(got), "fresh": float(ref),
                                  "lower": lo, "upper": hi, "N": N, "m": m})
+            if isinstance(arg, np.ndarray) and how != 9:
+                kept_args.append((arg, np.array(arg, copy=True), "%s argument at op %d" % (which, k)))
             changed = (not same(arg, snap)) if isinstance(arg, np.ndarray) else (list(arg) != list(snap))
             if changed:
                 if len(viol) < 5:
@@ -134,6 +137,10 @@ def run_case(c):
             cnt["setbounds"] += 1
             if not same(a_lo, s_lo) or not same(a_hi, s_hi):
                 viol.append({"mech": "argument-modified", "op": k, "what": "SetBounds"})
+            for a, what in ((a_lo, "lower"), (a_hi, "upper")):
+                if isinstance(a, np.ndarray):
+                    kept_args.append((a, np.array(a, copy=True), "SetBounds %s argument at op %d" % (what, k)))
+            obs["box_" + kind] = obs.get("box_" + kind, 0) + 1
         # arrays returned earlier must not change
         for arr, cp, desc in kept[-40:]:
             if not same(arr, cp):
@@ -141,8 +148,17 @@ def run_case(c):
                     viol.append({"mech": "returned-array-changed-later", "op": k, "which": desc, "was": cp.tolist(), "now": np.asarray(arr).tolist()})
                 kept = [t for t in kept if t[0] is not arr]
                 break
+        if k == c["ops"] - 1 or k % 7 == 0:
+            for arr, cp, desc in kept_args[-30:]:
+                if not same(arr, cp):
+                    if len(viol) < 5:
+                        viol.append({"mech": "argument-modified", "op": k, "which": desc, "was": cp.tolist(), "now": np.asarray(arr).tolist(),
+                                     "what": "an array passed in earlier was changed by a later operation", "lower": lo, "upper": hi})
+                    kept_args = [t for t in kept_args if t[0] is not arr]
+                    break
     for k2, v in cnt.items():
         obs["ops_" + k2] = v
+    obs["kept_argument_arrays_rechecked"] = len(kept_args)
     obs["kept_arrays_rechecked"] = len(kept)
     nt = c["ops"] >= 20 and cnt["image"] > 0 and (cnt["inverse"] + cnt["preimages"]) > 0
     return {"violations": viol, "obs": obs, "nontrivial": nt, "key": "%d|%d|%d" % (N, m, c["i"]) if nt else None,
@@ -150,7 +166,7 @@ def run_case(c):
 
 
 def finalize(obs, tier, stats):
-    for k in ("ops_image", "ops_inverse", "ops_preimages", "ops_setbounds", "integer_typed_args", "roundtrip_args", "image_of_previous_inverse"):
+    for k in ("ops_image", "ops_inverse", "ops_preimages", "ops_setbounds", "integer_typed_args", "roundtrip_args", "image_of_previous_inverse", "box_special", "box_unit", "box_far", "kept_argument_arrays_rechecked"):
         if not obs.get(k):
             return "operation class %s never exercised" % k, {}
     return None, {}
